@@ -10,8 +10,8 @@
    handler and may come between any two, [Exit] a child dying, [Sig] HUP reaching Arbiter.signal, [Edit] the configuration
    source changing (read by the next reload).
 
-   Restrictions: cfg.timeout = 0 (murder_workers is off: it belongs to C11), only HUP among the signals (TTIN / TTOU /
-   TERM ... are C03 / C04), no boot-failure exit codes (C03), no time.  The pid-file lines of reload are in
+   Restrictions: cfg.timeout = 0 (murder_workers is off: it belongs to C11), HUP, TTIN and TTOU among the signals (TERM ...
+   are C03 / C04), no boot-failure exit codes (C03), no time.  The pid-file lines of reload are in
    Model/Upgrade.v. *)
 From Coq Require Import List ZArith Bool Lia.
 From GV Require Import Gen.GenArbiter.
@@ -52,6 +52,7 @@ Record st := mkSt {
 }.
 
 Definition set_workers s x := mkSt x (num s) (wage s) (sigq s) (cfgid s) (cfgw s) (addr s) (lsn s) (cur s) (kids s) (next_pid s) (next_lsn s) (ncfg s) (disk_w s) (disk_addr s) (closed s) (hup_age s).
+Definition set_num s x := mkSt (workers s) x (wage s) (sigq s) (cfgid s) (cfgw s) (addr s) (lsn s) (cur s) (kids s) (next_pid s) (next_lsn s) (ncfg s) (disk_w s) (disk_addr s) (closed s) (hup_age s).
 Definition set_wage s x := mkSt (workers s) (num s) x (sigq s) (cfgid s) (cfgw s) (addr s) (lsn s) (cur s) (kids s) (next_pid s) (next_lsn s) (ncfg s) (disk_w s) (disk_addr s) (closed s) (hup_age s).
 Definition set_sigq s x := mkSt (workers s) (num s) (wage s) x (cfgid s) (cfgw s) (addr s) (lsn s) (cur s) (kids s) (next_pid s) (next_lsn s) (ncfg s) (disk_w s) (disk_addr s) (closed s) (hup_age s).
 Definition set_pc s x := mkSt (workers s) (num s) (wage s) (sigq s) (cfgid s) (cfgw s) (addr s) (lsn s) x (kids s) (next_pid s) (next_lsn s) (ncfg s) (disk_w s) (disk_addr s) (closed s) (hup_age s).
@@ -138,6 +139,10 @@ Definition dispatch (s : st) (sg : Z) : st :=
     | O => set_pc s1 PManageLen
     | S n => begin_spawn s1 (KReload n)
     end
+  else if sg =? SIGTTIN then           (* handle_ttin: num_workers += 1; manage_workers() *)
+    set_pc (set_num s (num s + 1)) PManageLen
+  else if sg =? SIGTTOU then           (* handle_ttou: nothing when num_workers <= 1, else num_workers -= 1; manage_workers() *)
+    if num s <=? 1 then to_loop s else set_pc (set_num s (num s - 1)) PManageLen
   else to_loop s.
 
 Definition master (s : st) : st :=
@@ -180,7 +185,11 @@ Inductive label :=
 | Exit (p status : Z)        (* any death *)
 | ExitTold (p : Z)           (* the child p exits if it was sent SIGTERM *)
 | Hup                        (* SIGHUP reaches Arbiter.signal *)
-| Edit (w a : Z).            (* the configuration source now says workers = w, bind = a *)
+| Edit (w a : Z)             (* the configuration source now says workers = w, bind = a *)
+| Ttin | Ttou.               (* SIGTTIN / SIGTTOU reach Arbiter.signal *)
+
+Definition queue_sig (s : st) (sg : Z) : st :=
+  if Z.of_nat (length (sigq s)) <? sig_queue_max then set_sigq s (sigq s ++ [sg]) else s.
 
 Definition step (s : st) (l : label) : st :=
   match l with
@@ -188,8 +197,10 @@ Definition step (s : st) (l : label) : st :=
   | Chld => chld s
   | Exit p status => set_kids s (exit_kid p status (kids s))
   | ExitTold p => set_kids s (exit_told_kid p (kids s))
-  | Hup => if Z.of_nat (length (sigq s)) <? sig_queue_max then set_sigq s (sigq s ++ [SIGHUP]) else s
+  | Hup => queue_sig s SIGHUP
   | Edit w a => if 0 <=? w then set_disk s w a else s
+  | Ttin => queue_sig s SIGTTIN
+  | Ttou => queue_sig s SIGTTOU
   end.
 
 Definition run (s : st) (ls : list label) : st := fold_left step ls s.
